@@ -66,7 +66,7 @@ def y_of(threshold):
     return hi
 
 
-def cluster_strategy(*, crash, flap=False):
+def cluster_strategy(*, crash, flap=False, late=False):
     def s(tier):
         big = tier == "thorough"
         d = {
@@ -84,6 +84,7 @@ def cluster_strategy(*, crash, flap=False):
             # crash time in 1/100 interval: inside the first round, mid-run, late
             d["victim"] = st.integers(0, 7)
             d["tc"] = st.one_of(st.integers(0, 150), st.integers(0, 2000))
+            d["late"] = st.just(bool(late))      # True: the crash comes only after the victim's first full probe cycle
         if flap:
             d["down"] = st.integers(200, 4000)            # length of the outage in 1/100 interval
             d["loss"] = st.lists(st.sampled_from([0, 0, 1]), max_size=60)
@@ -182,6 +183,8 @@ def run_cluster(case, obl, *, crash=False, flap=False):
     if crash:
         victim = nodes[_int(case.get("victim"), 0, 10 ** 6, 0) % n]
         tc_units = _int(case.get("tc"), 0, 10 ** 6, 0)
+        if case.get("late"):
+            tc_units += (n + 1) * 100          # after N-1 rounds the victim has pinged every peer once (+ 2 rounds of slack)
         tc = tc_units * unit
         if flap:
             down = _int(case.get("down"), 1, 10 ** 6, 200)
@@ -228,7 +231,7 @@ def run_cluster(case, obl, *, crash=False, flap=False):
     r.observed = {"events": probe.n, "suspects": view.suspects, "recoveries": view.recoveries,
                   "dead": sorted(f"{a}>{b}" for (a, b), s in view.state.items() if s == DEAD)[:8]}
     return r, view, p, dict(victim=victim, deadline=deadline, at_deadline=at_deadline, status=status, nodes=nodes,
-                            rounds=rounds, tc=(_int(case.get("tc"), 0, 10 ** 6, 0) * unit if crash else None))
+                            rounds=rounds, tc=(tc if crash else None))
 
 
 # ------------------------------------------------------------------------------------------- accuracy
@@ -239,8 +242,8 @@ def ex_accuracy(case):
 
 
 # ------------------------------------------------------------------------------------------- completeness
-def ex_completeness(case):
-    r, view, p, x = run_cluster(case, "completeness", crash=True)
+def ex_completeness(case, obl="completeness"):
+    r, view, p, x = run_cluster(case, obl, crash=True)
     victim, tc, interval = x["victim"], x["tc"], p["interval"]
     if x["status"] == "done" and x["at_deadline"]:
         rounds_allowed = (x["deadline"] - tc) / interval
@@ -351,6 +354,11 @@ OBLIGATIONS = [
                "round / mid-run / late); at the deadline computed from N, interval, delays and phi threshold (see assumptions) and at "
                "the end of the run no live member may report it ALIVE; no live member may ever be marked DEAD; DEAD is final. Every "
                "case is non-trivial (classes: crash in first round / mid-run / late)"),
+    Obligation("completeness-late", cluster_strategy(crash=True, late=True), lambda c: ex_completeness(c, "completeness-late"),
+               {"quick": 200, "thorough": 8000},
+               "restricted twin of `completeness` in which the open finding crash-before-first-heartbeat cannot occur by construction: "
+               "the crash comes at least N+1 rounds after the start, i.e. after the victim's first full probe cycle, so every observer "
+               "has received a ping from it; same clauses, nothing excluded"),
     Obligation("flap", cluster_strategy(crash=True, flap=True), ex_flap, {"quick": 300, "thorough": 12000},
                RULE_CLUSTER + "with loss bits; one member is down for 2-40 intervals and then restarts (start() again). Only the "
                "finality clause is judged: an observer that reported a member DEAD never reports it ALIVE/SUSPECT again (the "
